@@ -984,12 +984,19 @@ func (e *SpecEnv) evalCall(n *ECall) SVal {
 		if kv.C == nil {
 			sfail("callres: the ordinal must be a constant")
 		}
-		site := e.x.callSite(nm.S, int(kv.C.Int64()))
+		site, ikey := e.x.callSite(nm.S, int(kv.C.Int64()))
 		if site == nil {
 			sfail("callres: the function has no call #%d of %q", kv.C.Int64(), nm.S)
 		}
 		val := site.Value()
-		v := e.x.regOrArbitrary(e.post, val)
+		var v Val
+		if ikey == "" {
+			v = e.x.regOrArbitrary(e.post, val)
+		} else if iv, ok := e.x.inlinedCallRes[ikey]; ok {
+			v = iv
+		} else {
+			v = e.x.regOrArbitraryT(val, val.Type())
+		}
 		t := val.Type()
 		if len(n.Args) >= 3 {
 			iv := arg(2)
@@ -1009,7 +1016,13 @@ func (e *SpecEnv) evalCall(n *ECall) SVal {
 		if !ok || kv.C == nil {
 			sfail("callReported(name, k)")
 		}
-		site := e.x.callSite(nm.S, int(kv.C.Int64()))
+		site, ikey := e.x.callSite(nm.S, int(kv.C.Int64()))
+		if site != nil && ikey != "" {
+			if r, ok := e.x.inlinedCallRep[ikey]; ok {
+				return SVal{V: r, T: typBool}
+			}
+			site = nil // did not run: arbitrary, as below
+		}
 		if site == nil {
 			// the function makes no such call: like a call that did not run, the answer is arbitrary (a clause that
 			// needs the call then fails as an obligation instead of stopping the check)
